@@ -614,6 +614,20 @@ func g05HTTPProxy(repo string, w *Out) error {
 		return err
 	}
 	w.DefBool("localhost_maps_idna_inside", strings.Contains(f.Src(il.Body), "asciiHostname(host)"))
+	// NewHTTPProxy: the loopback names of the hosts file are lower-cased before they join hp.localhost
+	// (isLocalhost lower-cases only the name it is asked about)
+	nh, err := f.Func("NewHTTPProxy")
+	if err != nil {
+		return err
+	}
+	nsrc := f.Src(nh.Body)
+	iApp := strings.Index(nsrc, "hp.localhost = append(hp.localhost, lh...)")
+	if iApp < 0 || !strings.Contains(nsrc, "lh, err := hostsfile.LocalhostAliases()") {
+		return fmt.Errorf("NewHTTPProxy: lh, err := hostsfile.LocalhostAliases() ... hp.localhost = append(hp.localhost, lh...) not found")
+	}
+	iLow := strings.Index(nsrc, "for i := range lh { lh[i] = strings.ToLower(lh[i]) }")
+	w.DefBool("aliases_lowercased_at_construction", iLow >= 0 && iLow < iApp)
+	w.DefBool("localhost_lowercases_query", strings.Contains(f.Src(il.Body), "strings.ToLower("))
 
 	// pacProxy
 	pp, err := f.Func("HTTPProxy.pacProxy")
